@@ -186,12 +186,14 @@ func c17Route(ups []*c17Up, pfx, rx string) *c17Up {
 	return best
 }
 
-func c17DecideReading(ups []*c17Up, pfx, rx string) c17Decision {
+// c17DecideReading: pfx/rx are the forms of the path seen by prefix/exact paths and by patterns; spfx/srx the forms the
+// "would it match with a slash appended" test uses (identical to pfx/rx except in the raw-mode mixes below).
+func c17DecideReading(ups []*c17Up, pfx, rx, spfx, srx string) c17Decision {
 	if u := c17Route(ups, pfx, rx); u != nil {
 		return c17Decision{Kind: "upstream", Up: u}
 	}
-	if !strings.HasSuffix(pfx, "/") {
-		if u := c17Route(ups, pfx+"/", rx+"/"); u != nil {
+	if !strings.HasSuffix(spfx, "/") {
+		if u := c17Route(ups, spfx+"/", srx+"/"); u != nil {
 			return c17Decision{Kind: "redirect-slash", Up: u}
 		}
 	}
@@ -199,8 +201,9 @@ func c17DecideReading(ups []*c17Up, pfx, rx string) c17Decision {
 }
 
 // c17Decide returns the acceptable outcomes for an escaped request path. Without proxyRawPath there is exactly one.
-// With proxyRawPath the documentation does not say which form is matched, so the decoded reading, the escaped reading
-// and the mixed one (prefixes on the escaped path, patterns on the decoded path) are all accepted when they differ.
+// With proxyRawPath the documentation does not say which form of the path is matched, so when the escaped and the
+// decoded form of the path differ, every outcome that results from using either form at each matching step
+// (patterns, prefixes/exact paths, slash-appended test) is accepted; the first entry is the all-escaped reading.
 func c17Decide(ups []*c17Up, raw bool, esc string) []c17Decision {
 	dec, ok := c17Unescape(esc, false)
 	if !ok {
@@ -213,18 +216,29 @@ func c17Decide(ups []*c17Up, raw bool, esc string) []c17Decision {
 		if c17CleanPath(dec) != dec {
 			return []c17Decision{{Kind: "redirect-clean"}}
 		}
-		return []c17Decision{c17DecideReading(ups, dec, dec)}
+		return []c17Decision{c17DecideReading(ups, dec, dec, dec, dec)}
 	}
-	out := []c17Decision{c17DecideReading(ups, esc, esc)}
-	for _, d := range []c17Decision{c17DecideReading(ups, dec, dec), c17DecideReading(ups, esc, dec)} {
-		dup := false
-		for _, o := range out {
-			if o.Kind == d.Kind && o.Up == d.Up {
-				dup = true
+	out := []c17Decision{c17DecideReading(ups, esc, esc, esc, esc)}
+	if esc == dec {
+		return out
+	}
+	forms := []string{esc, dec}
+	for _, a := range forms {
+		for _, b := range forms {
+			for _, c := range forms {
+				for _, e := range forms {
+					d := c17DecideReading(ups, a, b, c, e)
+					dup := false
+					for _, o := range out {
+						if o.Kind == d.Kind && o.Up == d.Up {
+							dup = true
+						}
+					}
+					if !dup {
+						out = append(out, d)
+					}
+				}
 			}
-		}
-		if !dup {
-			out = append(out, d)
 		}
 	}
 	return out
@@ -314,6 +328,7 @@ type c17RewriteExp struct {
 	LitPath     string      // what results when escaped reserved characters are treated as literal ones (known deviation F9 with %3F)
 	LitPairs    [][2]string // the rule's pairs under that literal reading
 	TagAgrees   bool
+	LitBroken   bool // under the literal reading the text after the first '?' is not a parsable query
 	EscReserved bool // the request path contains an escaped reserved character
 }
 
@@ -329,7 +344,8 @@ func c17ExpectRewrite(u *c17Up, esc string) c17RewriteExp {
 	e.LitPath = full
 	if i := strings.IndexByte(full, '?'); i >= 0 {
 		e.LitPath = full[:i]
-		e.LitPairs = c17ParseQuery(full[i+1:]).Pairs
+		lq := c17ParseQuery(full[i+1:])
+		e.LitPairs, e.LitBroken = lq.Pairs, len(lq.Malformed) > 0
 	}
 	if e.TagAgrees {
 		p, q := fullTagged, ""
